@@ -1038,3 +1038,184 @@ Proof.
   intros m lhs idx v k out H. destruct (h_index_set m lhs idx v) as [[x m']| | |]; cbn [hlift_o] in H;
     try discriminate H. inversion H; reflexivity.
 Qed.
+
+(** * F2h contains F2 *)
+
+Lemma f2_in_f2h : (forall e lp, f2e lp e = true -> f2he lp e = true) /\
+                  (forall s lp, f2s lp s = true -> f2hs lp s = true).
+Proof.
+  assert (forall l, Forall (fun s => forall lp, f2s lp s = true -> f2hs lp s = true) l ->
+                    forall lp, f2b lp l = true -> f2hb lp l = true) as Hb.
+  { intros l H. induction H as [|s r Hs Hr IH]; intros lp HF; [reflexivity|].
+    rewrite f2b_cons in HF. apply andb_prop in HF. destruct HF as [H1 H2].
+    rewrite f2hb_cons, (Hs lp H1), (IH lp H2). reflexivity. }
+  apply expr_stmt_ind.
+  - intros l o r IHl IHr lp HF. cbn [f2e] in HF. apply andb_prop in HF. destruct HF as [HF Hr].
+    apply andb_prop in HF. destruct HF as [Ho Hl]. rewrite f2he_infix, Ho, (IHl false Hl), (IHr false Hr). reflexivity.
+  - intros o r IHr lp HF. cbn [f2e] in HF. apply andb_prop in HF. destruct HF as [Ho Hr].
+    rewrite f2he_prefix, Ho, (IHr false Hr). reflexivity.
+  - intros z lp HF. exact HF.
+  - intros x lp HF. discriminate HF.
+  - intros b lp HF. reflexivity.
+  - intros c t alt IHc IHt IHa lp HF. rewrite f2e_if in HF. apply andb_prop in HF. destruct HF as [HF Ha].
+    apply andb_prop in HF. destruct HF as [Hc Ht]. rewrite f2he_if, (IHc false Hc), (Hb t IHt lp Ht). cbn [andb].
+    destruct alt as [bl|]; [exact (Hb bl IHa lp Ha)|reflexivity].
+  - intros x lp HF. reflexivity.
+  - intros n ps body _ lp HF. discriminate HF.
+  - intros h args _ _ lp HF. discriminate HF.
+  - intros l r _ IHr lp HF. cbn [f2e] in HF. destruct l; try discriminate HF. rewrite f2he_assign. exact (IHr false HF).
+  - intros x lp HF. discriminate HF.
+  - intros vs _ lp HF. discriminate HF.
+  - intros b i _ _ lp HF. discriminate HF.
+  - intros c b IHc IHb lp HF. rewrite f2e_while in HF. apply andb_prop in HF. destruct HF as [Hc Hbd].
+    rewrite f2he_while, (IHc false Hc), (Hb b IHb true Hbd). reflexivity.
+  - intros x e IHe lp HF. cbn [f2s] in HF. apply andb_prop in HF. destruct HF as [He Hm].
+    cbn [f2hs]. rewrite (IHe false He), Hm. reflexivity.
+  - intros e _ lp HF. discriminate HF.
+  - intros e IHe lp HF. exact (IHe lp HF).
+  - intros b IHb lp HF. rewrite f2s_block in HF. rewrite f2hs_block. exact (Hb b IHb lp HF).
+  - intros lp HF. exact HF.
+  - intros lp HF. exact HF.
+Qed.
+
+Corollary in_F2_in_F2h : forall p, in_F2 p = true -> in_F2h p = true.
+Proof.
+  intros p. unfold in_F2, in_F2h. generalize false. induction p as [|s r IH]; intros lp HF; [reflexivity|].
+  rewrite f2b_cons in HF. apply andb_prop in HF. destruct HF as [H1 H2].
+  rewrite f2hb_cons, (proj2 f2_in_f2h s lp H1), (IH lp H2). reflexivity.
+Qed.
+
+(** * Examples: the hypotheses are satisfiable, the statements say what they should *)
+
+Definition exh_orc : oracle := mkOracle (fun _ => [102%N]) (fun _ => None) (fun x _ => x).
+Definition xa : text := [97%N].
+Definition xb : text := [98%N].
+Definition xs : text := [115%N].
+Definition t_print : text := str_cps "print".
+Definition t_lengte : text := str_cps "lengte".
+Definition t_type : text := str_cps "type".
+
+(* stel a = [1, 2.5, "hi"]; stel b = a; b[0] = 10; print("{} {}", a[0], lengte(a));
+   stel s = "abc"; s[-1] = "xyz"; print(s); a[1] = a[1] + 0.5; print(type(a[1])); a *)
+Definition exh_prog : block :=
+  [ SLet xa (EArray [EInt 1; EFloat 2.5%float; EString (str_cps "hi")]);
+    SLet xb (EIdent xa);
+    SExpr (EAssign (EIndex (EIdent xb) (EInt 0)) (EInt 10));
+    SExpr (ECall (EIdent t_print) [EString (str_cps "{} {}"); EIndex (EIdent xa) (EInt 0);
+                                   ECall (EIdent t_lengte) [EIdent xa]]);
+    SLet xs (EString (str_cps "abc"));
+    SExpr (EAssign (EIndex (EIdent xs) (EPrefix OpSubtract (EInt 1))) (EString (str_cps "xyz")));
+    SExpr (ECall (EIdent t_print) [EIdent xs]);
+    SExpr (EAssign (EIndex (EIdent xa) (EInt 1)) (EInfix (EIndex (EIdent xa) (EInt 1)) OpAdd (EFloat 0.5%float)));
+    SExpr (ECall (EIdent t_print) [ECall (EIdent t_type) [EIndex (EIdent xa) (EInt 1)]]);
+    SExpr (EIdent xa) ].
+
+Example exh_in_fragment : in_F2h exh_prog = true /\ ends_expr exh_prog = true /\ in_F2 exh_prog = false.
+Proof. vm_compute. repeat split; reflexivity. Qed.
+
+Example exh_lits_exact : lits_exact (lits_b exh_prog).
+Proof.
+  intros f g Hf Hg He. cbn in Hf, Hg.
+  repeat (destruct Hf as [Hf|Hf]; [try discriminate Hf; inversion Hf; subst f|]); try contradiction;
+    repeat (destruct Hg as [Hg|Hg]; [try discriminate Hg; inversion Hg; subst g|]); try contradiction;
+    try reflexivity; vm_compute in He; discriminate He.
+Qed.
+
+(* what the machine does: the alias b sees the write, the output is "10 3\nabxyz\nfloat\n",
+   the final value is the array *)
+Example exh_runs :
+  match compile exh_prog with
+  | Ok bc =>
+      o_out (run_program exh_orc bc 1000) = str_cps "10 3" ++ [10%N] ++ str_cps "abxyz" ++ [10%N] ++ str_cps "float" ++ [10%N]
+      /\ (exists l, o_result (run_program exh_orc bc 1000) = Ok (VArr l))
+      /\ sem_out (sem_program exh_orc 100 exh_prog) = Some (o_out (run_program exh_orc bc 1000))
+  | _ => False
+  end.
+Proof. vm_compute. split; [reflexivity|]. split; [eexists; reflexivity|reflexivity]. Qed.
+
+Example exh_by_theorem : forall bc, compile exh_prog = Ok bc ->
+  exists budget, obs_eq_h (run_program exh_orc bc budget) (sem_program exh_orc 100 exh_prog).
+Proof.
+  intros bc H.
+  apply (compile_correct_F2h exh_orc exh_prog (proj1 exh_in_fragment) (proj1 (proj2 exh_in_fragment))
+           exh_lits_exact bc H 100).
+  - vm_compute. lia.
+  - vm_compute. discriminate.
+  - vm_compute in H. inversion H; subst bc. intros st Hst. vm_compute in Hst. inversion Hst; subst st.
+    vm_compute. reflexivity.
+Qed.
+
+(* an index error is raised at the same point, after the same output *)
+Definition exh_err : block :=
+  [ SLet xa (EArray [EInt 1; EInt 2]);
+    SExpr (ECall (EIdent t_print) [EIndex (EIdent xa) (EPrefix OpSubtract (EInt 1))]);
+    SExpr (EIndex (EIdent xa) (EInt 2)) ].
+
+Example exh_err_runs :
+  in_F2h exh_err = true /\
+  match compile exh_err with
+  | Ok bc => o_result (run_program exh_orc bc 1000) = Err EIndexError
+             /\ o_out (run_program exh_orc bc 1000) = [50%N; 10%N]
+             /\ sem_program exh_orc 100 exh_err = SemError EIndexError [50%N; 10%N]
+  | _ => False
+  end.
+Proof. vm_compute. repeat split; reflexivity. Qed.
+
+(* WHY obs_eq_h compares graphs under a location correspondence that may identify floats, and not
+   the canonical renderings of corr/CorrRun.v / CorrSem.v: the machine pushes the pooled box of a
+   float constant, Sem allocates a box per evaluation.  [1.5, 1.5]: one shared box on the machine,
+   two boxes in Sem.  (Unobservable in the language: floats are immutable and `==` compares
+   contents.) *)
+Definition exh_shared : block := [ SExpr (EArray [EFloat 1.5%float; EFloat 1.5%float]) ].
+Example exh_shared_float :
+  in_F2h exh_shared = true /\
+  match compile exh_shared with
+  | Ok bc =>
+      match o_result (run_program exh_orc bc 100), o_heap (run_program exh_orc bc 100),
+            sem_program exh_orc 100 exh_shared with
+      | Ok (VArr l), Ok hm, SemValue (VArr ls) hs _ =>
+          (exists k, h_get hm l = Ok (OArr [VFloat k; VFloat k])) /\
+          (exists k1 k2, h_get hs ls = Ok (OArr [VFloat k1; VFloat k2]) /\ k1 <> k2)
+      | _, _, _ => False
+      end
+  | _ => False
+  end.
+Proof.
+  vm_compute. split; [reflexivity|]. split; [eexists; reflexivity|].
+  eexists; eexists. split; [reflexivity|discriminate].
+Qed.
+
+(* WHY lits_exact is assumed: 0.0 and -0.0 are IEEE-equal, the pool keeps one of them
+   (PoolProofs.zero_and_negzero_share_a_slot); 1 / x tells them apart *)
+Definition exh_negzero : block :=
+  [ SExpr (EFloat 0%float);
+    SExpr (EInfix (EFloat 1%float) OpDivide (EFloat (-0)%float)) ].
+Example exh_negzero_differs :
+  in_F2h exh_negzero = true /\ ~ lits_exact (lits_b exh_negzero) /\
+  match compile exh_negzero with
+  | Ok bc =>
+      match o_result (run_program exh_orc bc 100), o_heap (run_program exh_orc bc 100),
+            sem_program exh_orc 100 exh_negzero with
+      | Ok (VFloat l), Ok hm, SemValue (VFloat ls) hs _ =>
+          h_get hm l = Ok (OFloat infinity) /\ h_get hs ls = Ok (OFloat neg_infinity)
+      | _, _, _ => False
+      end
+  | _ => False
+  end.
+Proof.
+  split; [vm_compute; reflexivity|]. split.
+  - intros H. specialize (H 0%float (-0)%float). cbn in H.
+    assert (0%float = (-0)%float) as E by (apply H; auto; vm_compute; reflexivity).
+    assert (PrimFloat.eqb (1 / 0)%float (1 / (-0))%float = true) as E2 by (rewrite <- E; vm_compute; reflexivity).
+    vm_compute in E2. discriminate E2.
+  - vm_compute. split; reflexivity.
+Qed.
+
+Print Assumptions compile_correct_F2h.
+Print Assumptions static_accepts_F2h.
+Print Assumptions compile_run_F2h.
+Print Assumptions print_output_order.
+Print Assumptions alias_same_on_both_sides.
+Print Assumptions alias_through_variables.
+Print Assumptions index_rule_source.
+Print Assumptions failed_write_leaves_sequence_unchanged.
